@@ -594,6 +594,47 @@ def run_one(rng, counters):
             if want not in names.get((a.reference_name, a.query_name), []):
                 viol.append({"mech": "list-vs-bam", "msg": "%s: BAM tags %r, list lines %r" % (a.query_name, t, names.get((a.reference_name, a.query_name)))})
                 break
+        # ---------------- regions metamorphism: a read all of whose alignments lie completely inside one requested region each
+        # (and touch no other region) has all its variants inside the regions and is fetched exactly once per alignment, so
+        # restricting the run to the regions cannot change its tag
+        if not viol and not linked and opts.get("regions") and all(e is not None for _, _, e in opts["regions"]):
+            out3 = os.path.join(tmp, "out3.bam")
+            opts3 = {k_: v_ for k_, v_ in opts.items() if k_ != "regions"}
+            try:
+                run_haplotag_once(vcf, bam, out3, sim, opts3, os.path.join(tmp, "list3.tsv"))
+            except Exception:
+                out3 = None  # the run without --regions is judged by its own cases
+            if out3:
+                regs = opts["regions"]
+
+                def _inside(a):
+                    if a.is_unmapped or a.reference_end is None:
+                        return False
+                    hit = [(c_, s_, e_) for c_, s_, e_ in regs if c_ == a.reference_name and a.reference_start < e_ and a.reference_end > s_]
+                    return len(hit) == 1 and hit[0][1] <= a.reference_start and a.reference_end <= hit[0][2]
+
+                by_name = {}
+                f_all = pysam.AlignmentFile(bam)
+                for a in f_all.fetch(until_eof=True):
+                    # by name only: mates may differ in their RG field (one may lack it), and with --ignore-read-groups they form one read
+                    by_name.setdefault(a.query_name, []).append(_inside(a))
+                f_all.close()
+                f3 = pysam.AlignmentFile(out3)
+                full = {}
+                for a in f3.fetch(until_eof=True):
+                    full.setdefault(strip(a), tags_of(a))
+                f3.close()
+                for a in got:
+                    if not all(by_name.get(a.query_name, [False])):
+                        continue
+                    k_ = strip(a)
+                    if k_ not in full:
+                        continue
+                    counters["regions_vs_whole_file_tags_compared"] = counters.get("regions_vs_whole_file_tags_compared", 0) + 1
+                    ta_, tb_ = tags_of(a), full[k_]
+                    if (ta_ and ta_[:2]) != (tb_ and tb_[:2]):
+                        viol.append({"mech": "tag-depends-on-regions", "msg": "%s lies inside one requested region with all its alignments; tagged %r with --regions %r, %r without" % (a.query_name, ta_, regs, tb_)})
+                        break
         # ---------------- swap metamorphism
         if not viol and not linked and blocks:
             (c0, s0) = rng.choice(sorted(blocks))
